@@ -3,7 +3,10 @@
 import glob, json, os, re
 V = os.path.dirname(os.path.dirname(os.path.abspath(__file__)))
 rows = []
-for d in sorted(os.listdir(os.path.join(V, "seeded")), key=lambda x: (x.split("_")[0], int(x.split("_")[1]) if "_" in x else 1)):
+def _key(x):
+    t = x.split("_")
+    return (t[0], int(t[1]) if len(t) > 1 and t[1].isdigit() else 1, x)
+for d in sorted(os.listdir(os.path.join(V, "seeded")), key=_key):
     p = os.path.join(V, "seeded", d)
     try:
         m = json.load(open(os.path.join(p, "meta.json")))
